@@ -78,4 +78,22 @@ def units(ctx):
     from contracts import utils as _ut
     from vlib.pyvc.unit import contract_unit as _cu2
     us += [_cu2(c, world_setup=_ut.setup) for c in _ut.predicate_contracts()]
+    from props._common import bounded_unit
+    us.append(bounded_unit(
+        'bounded:c08-limits', 'c08_limits.py',
+        'BOUNDED: 79 expressions over an endless instrumented source under '
+        'limitIterators = 10 (termination, pulls <= N + 1, no collection > N '
+        'in the result, also as dict key / set member), 21 growing '
+        'expressions under memoryQuota = 20000', timeout=600))
     return us
+
+
+def post(ctx, results):
+    from props._common import attach_replay
+    b = [o for r in results for o in r['obligations']
+         if o['name'] == 'bounded:c08-limits']
+    rep = b[0].get('replay') if b else None
+    if rep and rep.get('status') == 'failed':
+        attach_replay(results, lambda o: not o.get('bounded') and
+                      o.get('kind') in ('post', 'raises', 'flow'), rep)
+    return results
